@@ -431,13 +431,38 @@ Proof.
   - destruct W; split; assumption.
 Qed.
 
+Lemma wtot_insert p ps : wtot (tx_insert p ps) = wp p + wtot ps.
+Proof. induction ps as [|q ps IH]; cbn [tx_insert]; [reflexivity|]. destruct (tx_before p q); rewrite ?wtot_cons, ?IH; lia. Qed.
+Lemma wtot_sort ps : wtot (tx_sort ps) = wtot ps.
+Proof. induction ps as [|p ps IH]; cbn [tx_sort]; [reflexivity|]. rewrite wtot_insert, wtot_cons, IH. reflexivity. Qed.
+Lemma In_insert x p ps : In x (tx_insert p ps) -> x = p \/ In x ps.
+Proof.
+  induction ps as [|q ps IH]; cbn [tx_insert]; [intros [<-|[]]; auto|].
+  destruct (tx_before p q); [intros [<-|H]; auto|]. intros [<-|H]; [right; left; reflexivity|].
+  destruct (IH H); [auto|right; right; assumption].
+Qed.
+Lemma In_sort x ps : In x (tx_sort ps) -> In x ps.
+Proof.
+  induction ps as [|p ps IH]; cbn [tx_sort]; [auto|]. intros H. destruct (In_insert _ _ _ H); [left; congruence|right; auto].
+Qed.
+Lemma wtot_firstn_skipn n ps : wtot (firstn n ps) + wtot (skipn n ps) = wtot ps.
+Proof. rewrite <- wtot_app, firstn_skipn. reflexivity. Qed.
+Lemma In_firstn_l {A} n (x : A) xs : In x (firstn n xs) -> In x xs.
+Proof. intros H. rewrite <- (firstn_skipn n xs). apply in_or_app. left. assumption. Qed.
+
 Lemma keeps_request_batch tk c to : keeps (request_batch tk c to).
 Proof.
-  intros s s' W H. unfold request_batch in H. minv. cbn [sb sr sg]. split.
+  intros s s' W H. unfold request_batch in H. set (bsz := batch_size) in *. clearbody bsz. minv. cbn [sb sr sg]. split.
   - unfold V. cbn [sb sr sg]. unfold infl. cbn [pool batches calls set_pool set_batches set_batchid].
-    rewrite wbat_cons. cbn [b_txs]. rewrite (wtot_split (sel_tx c (t_id tk)) (pool (sr s))). lia.
+    rewrite wbat_cons. cbn [b_txs]. rewrite wtot_app.
+    pose proof (wtot_firstn_skipn bsz (tx_sort (filter (sel_tx c (t_id tk)) (pool (sr s))))) as E.
+    rewrite wtot_sort in E. rewrite (wtot_split (sel_tx c (t_id tk)) (pool (sr s))).
+    set (A1 := wtot (firstn _ _)) in *. set (A2 := wtot (skipn _ _)) in *.
+    set (A3 := wtot (filter (fun p => negb _) _)) in *. set (A4 := wtot (filter (sel_tx _ _) _)) in *.
+    set (A5 := wbat _) in *. set (A6 := wcalls _) in *. lia.
   - destruct W as [W1 W2]. split; cbn [pool batches calls set_pool set_batches set_batchid]; [|assumption].
     intros b [<-|Hb]; [|apply W1; assumption]. cbn [b_txs b_tok b_chain]. intros p Hp.
+    apply In_firstn_l, In_sort in Hp.
     apply filter_In in Hp as [_ Hp]. unfold sel_tx in Hp. apply andb_true_iff in Hp as [Hp1 Hp2].
     apply Z.eqb_eq in Hp1, Hp2. auto.
 Qed.
